@@ -1,5 +1,6 @@
 (* C10 — update methods write only mapped, non-skipped fields of the target instance. *)
 From Coq Require Import List NArith ZArith Bool.
+From Coq Require String.
 From GV Require Import Base Ty Conf Extracted Val Plan Eval Gen GenFacts EvalFacts.
 Import ListNotations.
 Open Scope N_scope.
@@ -74,7 +75,18 @@ Theorem C10_frame_zero_valued : forall ev ea fs src olds st rs st',
     nth_error rs i = nth_error olds i.
 Proof. exact each_field_frame_zero. Qed.
 
+(* the zero check is asked about (source part, target field), in this order, at both of its call sites: the category
+   that decides is the one of the SOURCE field (docs/reference/update.md), as in the model's struct_assign *)
+Module Sites.
+  Import String.
+  Theorem C10_zero_check_call_sites :
+    x_zero_check_calls = [ map s2r ["ctx"; "nextSource"; "targetFieldType"; "assignTo.Update"; "false"];
+                           map s2r ["ctx"; "functionCallSourceType"; "targetFieldType"; "assignTo.Update"; "true"] ]%string.
+  Proof. reflexivity. Qed.
+End Sites.
+
 Print Assumptions C10_nil_source_pointer_noop.
+Print Assumptions Sites.C10_zero_check_call_sites.
 Print Assumptions C10_skipped_field_keeps_value.
 Print Assumptions C10_zero_guard_keeps_value.
 Print Assumptions C10_mapped_field_replaced.
